@@ -6,6 +6,7 @@ import (
 	"os"
 	"runtime"
 	"strings"
+	"sync/atomic"
 
 	"github.com/antchfx/xpath"
 
@@ -34,8 +35,13 @@ func (p *PanicInfo) String() string {
 	return fmt.Sprintf("panic(%s runtime=%v %q at %s)", p.Type, p.Runtime, p.Msg, p.Frame)
 }
 
+// BudgetHits counts the evaluations of this process that exhausted the navigator-op budget. Each one
+// costs a full budget of CPU, so the worker stops after three (whatever the monitor made of them).
+var BudgetHits atomic.Int64
+
 func classify(x interface{}) (pi *PanicInfo, budget bool) {
 	if _, ok := x.(xdoc.Budget); ok {
+		BudgetHits.Add(1)
 		return nil, true
 	}
 	pi = &PanicInfo{Type: fmt.Sprintf("%T", x), Msg: fmt.Sprint(x)}
